@@ -171,4 +171,54 @@ theorem reset_at_commit_counterexample :
       some [[declCmd ⟨0, 1⟩] ++ measCmds.map (substCmd (fun _ => 5)) ++ [retArrCmd ⟨0, 1⟩],
             measCmds2] := by rfl
 
+/-! ### one compiled template, instantiated several times -/
+
+/-- **instantiate_pure**: a call of `instantiate` on (a shallow copy of) the template returns the
+instance determined by (template, σ) alone and leaves the shared template as it was — also when
+it fails with a missing argument. -/
+theorem instantiate_pure (t : List TInstr) (σ : String → Option Int) :
+    (instCall t σ).1 = instantiate? σ t ∧ (instCall t σ).2 = t := ⟨rfl, rfl⟩
+
+/-- a failed instantiate (KeyError) leaves the template unchanged -/
+theorem instantiate_failed_unchanged (t : List TInstr) (σ : String → Option Int)
+    (_h : instantiate? σ t = none) : (instCall t σ).2 = t := rfl
+
+/-- **instantiate_reuse**: ANY sequence of instantiations of one compiled template — complete or
+failing, in any order — yields for each call exactly the instance of that call's own values, and
+the template is still the template afterwards (induction over the sequence).  In particular two
+instantiations with σ₁, σ₂ give the σ₁- and the σ₂-program, and a retry after a failed attempt
+gives the program of the retry's values. -/
+theorem instantiate_reuse (t : List TInstr) (σs : List (String → Option Int)) :
+    instCalls instCall t σs = (σs.map (fun σ => instantiate? σ t), t) := instCalls_pure σs t
+
+/-- with complete values every instance is the program written with those values (layer (1)) -/
+theorem instantiate_reuse_total (t : List TInstr) (σ₁ σ₂ : String → Int) :
+    (instCalls instCall t [fun n => some (σ₁ n), fun n => some (σ₂ n)]).1 =
+      [some (instantiate σ₁ t), some (instantiate σ₂ t)] := by
+  rw [instantiate_reuse]; simp [instantiate?_total]
+
+private def rotT : List TInstr :=
+  [⟨"RotZ", [.op (.reg ⟨2, 0⟩), .tmpl "a", .op (.imm 4)]⟩,
+   ⟨"RotX", [.op (.reg ⟨2, 0⟩), .tmpl "b", .op (.imm 3)]⟩]
+private def σab (a b : Int) : String → Option Int := fun n => if n = "a" then some a else if n = "b" then some b else none
+private def σa (a : Int) : String → Option Int := fun n => if n = "a" then some a else none
+
+/-- non-vacuity: two rounds and a failed-then-retried instantiate on a two-rotation template -/
+example : (instCalls instCall rotT [σab 3 1, σa 1, σab 9 5]).1 =
+    [some [⟨"RotZ", [.reg ⟨2, 0⟩, .imm 3, .imm 4]⟩, ⟨"RotX", [.reg ⟨2, 0⟩, .imm 1, .imm 3]⟩],
+     none,
+     some [⟨"RotZ", [.reg ⟨2, 0⟩, .imm 9, .imm 4]⟩, ⟨"RotX", [.reg ⟨2, 0⟩, .imm 5, .imm 3]⟩]] := by decide
+
+/-- the statement is about the code as it is: an `instantiate` that fills the shared instruction
+objects in place sends the FIRST round's values again in the second round, and a retry after a
+failed attempt keeps the numerator of the failed attempt -/
+theorem inplace_counterexample :
+    (instCalls instCallInPlace rotT [σab 3 1, σab 9 5]).1 =
+      [some [⟨"RotZ", [.reg ⟨2, 0⟩, .imm 3, .imm 4]⟩, ⟨"RotX", [.reg ⟨2, 0⟩, .imm 1, .imm 3]⟩],
+       some [⟨"RotZ", [.reg ⟨2, 0⟩, .imm 3, .imm 4]⟩, ⟨"RotX", [.reg ⟨2, 0⟩, .imm 1, .imm 3]⟩]] ∧
+    (instCalls instCallInPlace rotT [σa 1, σab 5 7]).1 =
+      [none,
+       some [⟨"RotZ", [.reg ⟨2, 0⟩, .imm 1, .imm 4]⟩, ⟨"RotX", [.reg ⟨2, 0⟩, .imm 7, .imm 3]⟩]] := by
+  decide
+
 end NQ.C06
